@@ -3,6 +3,13 @@
 // Contracts for cmd/bkli (comment-only; read by /verif/bin/bklverif).
 package main
 
+// The common base of all inputs is the left fold of intersect over the inputs in command-line order: the first input
+// is taken as it is, every later one is intersected with what was accumulated so far (C16).
+//@ func main() ()
+//@   property C16
+//@   loop 1
+//@     transition (= doc (ite (= idx@iter 0) (Document.Data (rlnth docs 0)) (interF (Document.Data (rlnth docs 0)) doc@iter)))   [C16]
+//
 //@ func intersect(a, b) (res, err)
 //@   ensures (not (isErr err))
 //@   ensures (= res (interF a b))                                                  [C16]
